@@ -54,11 +54,24 @@ Pool == <<
   Ok_("parse_digitally_signed_old", NoArgs, <<0, 2, 9, 9>>),
   Ok_("parse_content_and_signature", Sig1, <<0, 1, 1, 0, 1, 2, 0, 1, 3, 4, 1, 0, 1, 9>>),
   Ok_("parse_content_and_signature", Sig0, <<3, 0, 23, 1, 4, 0, 1, 9>>),
+  (* structures whose leading u16 is small: a suffix of the right length makes the whole input a well-formed value of the OTHER *)
+  (* signature structure (RFC 2246 vs RFC 5246); the verdict must not change                                                    *)
+  Ok_("parse_content_and_signature", Sig1, <<0, 1, 1, 0, 1, 2, 0, 1, 3, 0, 4, 0, 1, 9>>),
+  Ok_("parse_content_and_signature", [Sig1 EXCEPT !.sub = "ecdh"], <<3, 0, 23, 1, 4, 0, 6, 0, 2, 9, 9>>),
+  Ok_("parse_content_and_signature", Sig0, <<3, 0, 23, 1, 4, 0, 2, 0, 1>>),
+  Ok_("parse_digitally_signed", NoArgs, <<0, 5, 0, 1, 9>>),
+  Ok_("parse_digitally_signed_old", NoArgs, <<0, 2, 0, 3>>),
+  Ok_("parse_dh_params", NoArgs, <<0, 1, 1, 0, 1, 2, 0, 2, 0, 3>>),
+  Ok_("ECPoint::parse", NoArgs, <<1, 3>>),
+  Ok_("parse_dtls_plaintext_record", NoArgs, EncDtlsRecord(22, 65277, 1, <<0, 0, 5>>, EncDtlsHs(14, 0, 3, 0, 0, <<>>) \o EncDtlsHs(14, 0, 4, 0, 0, <<>>))),
   (* complete containers whose nested length fields lie: the suffix must not be able to satisfy them *)
   Bad("parse_tls_plaintext", NoArgs, EncRecordRaw(22, 771, <<14, 0, 0, 9, 1>>)),                 \* hl beyond the record
   Bad("parse_tls_plaintext", NoArgs, EncRecordRaw(24, 771, <<1, 0, 9, 1>>)),                     \* heartbeat payload beyond the record
   Bad("parse_tls_plaintext", NoArgs, EncRecordRaw(21, 771, <<1>>)),                              \* alert cut by the record length
   Bad("parse_dtls_plaintext_record", NoArgs, EncDtlsRecord(22, 65277, 0, <<0, 0, 0>>, <<14, 0, 0, 0, 0, 0, 0, 0, 0, 0, 0, 9, 1>>)),
+  (* a DTLS message whose fragment_length reaches beyond its record (total length within it) *)
+  Bad("parse_dtls_plaintext_record", NoArgs, EncDtlsRecord(22, 65277, 0, <<0, 0, 0>>, <<14, 0, 0, 0, 0, 0, 0, 0, 0, 0, 0, 2>>)),
+  Bad("parse_dtls_plaintext_record", NoArgs, EncDtlsRecord(22, 65277, 0, <<0, 0, 0>>, <<16, 0, 0, 1, 0, 0, 0, 0, 0, 0, 0, 3, 7>>)),
   Bad("parse_tls_message_handshake", NoArgs, <<11, 0, 0, 4, 0, 0, 9, 48>>),                      \* certificate list beyond the message
   Bad("parse_tls_message_handshake", NoArgs, <<1, 0, 0, 3, 3, 3, 0>>),                           \* ClientHello cut by hl
   Bad("parse_tls_message_handshake", NoArgs, <<22, 0, 0, 4, 1, 0, 0, 9>>),                       \* status blob beyond the message
@@ -71,10 +84,12 @@ Pool == <<
   Bad("parse_ecdh_params", NoArgs, <<7, 0, 23, 1, 4>>)
   >>
 Sfx(s) == << <<>>, <<0>>, s, <<22, 3, 3, 255, 255>>, <<255, 255, 255, 255, 255, 255, 255, 255, 255>> >>
+          \o [n \in 1..12 |-> [j \in 1..n |-> (7 * j) % 256]]      \* every suffix length 1..12
+NSfx == 17
 
-N == Len(Pool) * 5
-PoolOf(j) == Pool[((j - 1) \div 5) + 1]
-BytesOf(j) == LET c == PoolOf(j) IN c.s \o Sfx(c.s)[((j - 1) % 5) + 1]
+N == Len(Pool) * NSfx
+PoolOf(j) == Pool[((j - 1) \div NSfx) + 1]
+BytesOf(j) == LET c == PoolOf(j) IN c.s \o Sfx(c.s)[((j - 1) % NSfx) + 1]
 VARIABLES i, res
 Init == i = Chunk + 1 /\ i <= N /\ res = Apply(PoolOf(i).fn, PoolOf(i).a, BytesOf(i))
 Next == i + NChunks <= N /\ i' = i + NChunks /\ res' = Apply(PoolOf(i').fn, PoolOf(i').a, BytesOf(i'))
@@ -85,5 +100,5 @@ Local == PoolOf(i).good => (Base(i).k = "ok" /\ Base(i).p = Len(PoolOf(i).s) /\ 
 (* ClassStable: on inputs that already contain the declared length the outcome class does not change *)
 ClassStable == res.k = Base(i).k /\ (~PoolOf(i).good => res.k # "ok")
 Pin == IF res.k = "ok" THEN "full" ELSE "novalue"
-EmitCase == LET c == PoolOf(i) IN EmitLine(CaseLine(i, c.fn, c.a, <<Lit(BytesOf(i))>>, res, Pin, [good |-> c.good, sfx |-> (i - 1) % 5]))
+EmitCase == LET c == PoolOf(i) IN EmitLine(CaseLine(i, c.fn, c.a, <<Lit(BytesOf(i))>>, res, Pin, [good |-> c.good, sfx |-> (i - 1) % NSfx]))
 =============================================================================
